@@ -166,12 +166,24 @@ pub struct StepEval<'a> {
     pub property: &'a str,
     pub aspects: Aspects,
     pub quirks: Vec<Quirk>,
+    /// accept (as a pass, with a class) cases that match a quirk which is an open finding of
+    /// *another* property - for checks whose question is not the quirk's subject (C07, C20)
+    pub foreign_quirks_ok: bool,
 }
 
 impl<'a> StepEval<'a> {
     pub fn new(ctx: &'a Ctx, property: &'a str, aspects: Aspects) -> Self {
         let quirks = open_quirks(ctx, property);
-        StepEval { ctx, property, aspects, quirks }
+        StepEval { ctx, property, aspects, quirks, foreign_quirks_ok: false }
+    }
+    /// all quirks that are open findings of any property
+    pub fn new_all_quirks(ctx: &'a Ctx, property: &'a str, aspects: Aspects) -> Self {
+        let quirks = crate::refmodel::exec::ALL_QUIRKS
+            .iter()
+            .copied()
+            .filter(|q| ctx.findings.all.iter().any(|f| f.status == "open" && f.signature == quirk_sig(*q)))
+            .collect();
+        StepEval { ctx, property, aspects, quirks, foreign_quirks_ok: true }
     }
 
     /// Judge one case, update `stats`, call `classify` for executed cases.
@@ -197,7 +209,11 @@ impl<'a> StepEval<'a> {
                 if count {
                     stats.evaluations += 1;
                     for q in qs {
-                        stats.known_hit(&quirk_sig(*q), || json!(case.brief()));
+                        if self.ctx.findings.is_open(self.property, &quirk_sig(*q)) {
+                            stats.known_hit(&quirk_sig(*q), || json!(case.brief()));
+                        } else {
+                            stats.class(&format!("matches open finding of another property: {:?}", q));
+                        }
                     }
                     classify(case, &j, stats);
                 }
@@ -308,6 +324,8 @@ pub fn finish(ctx: &Ctx, property: &str, mut stats: Stats, rule: &str, assumptio
         code = 1;
     }
     let wall = ctx.start.elapsed().as_secs_f64();
+    extra.insert("emulator_panics_caught".into(), json!(super::emu::PANICS.load(std::sync::atomic::Ordering::Relaxed)));
+    extra.insert("emulator_rebuilds".into(), json!(super::emu::REBUILDS.load(std::sync::atomic::Ordering::Relaxed)));
     println!(
         "{} {}: {} evaluations, {} distinct non-trivial, {} skipped (unconstrained), {} known-finding cases, {} violations, {:.1}s [{}]",
         property,
